@@ -2261,6 +2261,18 @@ private:
             return std::pair<iterator, bool>(iterator(leaf, slot), false);
         }
 
+        // value (and key, which refers into it) may be an element of this very
+        // leaf, as in insert(*it). The slots are moved around below, hence
+        // continue with a copy in that case.
+        if (!std::less<const value_type*>()(&value, leaf->slotdata) &&
+            std::less<const value_type*>()(&value,
+                                           leaf->slotdata + leaf_slotmax))
+        {
+            const value_type value_copy(value);
+            return insert_descend(leaf, key_of_value::get(value_copy),
+                                  value_copy, splitkey, splitnode);
+        }
+
         if (leaf->is_full())
         {
             split_leaf_node(leaf, splitkey, splitnode);
